@@ -7,13 +7,13 @@ package grammar
 // GoogleSQL reference.
 
 // capture runs f into fresh buffers and returns what it emitted.
-func (g *G) capture(f func()) ([]Tok, []CTok) {
-	s, c := g.src, g.canon
-	g.src, g.canon = nil, nil
+func (g *G) capture(f func()) ([]Tok, []CTok, []int) {
+	s, c, cs := g.src, g.canon, g.csrc
+	g.src, g.canon, g.csrc = nil, nil, nil
 	f()
-	rs, rc := g.src, g.canon
-	g.src, g.canon = s, c
-	return rs, rc
+	rs, rc, rcs := g.src, g.canon, g.csrc
+	g.src, g.canon, g.csrc = s, c, cs
+	return rs, rc, rcs
 }
 
 func (g *G) options() {
@@ -368,6 +368,8 @@ func (g *G) createTable() {
 		kind int
 		s    []Tok
 		c    []CTok
+		cs   []int
+		off  int
 	}
 	var elems []elem
 	n := []int{1, 0, 2, 3}[g.alt(4)]
@@ -375,26 +377,28 @@ func (g *G) createTable() {
 		k := g.alt(3)
 		var s []Tok
 		var c []CTok
+		var cs []int
 		switch k {
 		case 0:
-			s, c = g.capture(g.columnDef)
+			s, c, cs = g.capture(g.columnDef)
 		case 1:
-			s, c = g.capture(g.tableConstraint)
+			s, c, cs = g.capture(g.tableConstraint)
 		case 2:
-			s, c = g.capture(func() {
+			s, c, cs = g.capture(func() {
 				g.pk("SYNONYM")
 				g.p("(")
 				g.id()
 				g.p(")")
 			})
 		}
-		elems = append(elems, elem{k, s, c})
+		elems = append(elems, elem{k, s, c, cs, 0})
 	}
-	for i, e := range elems {
+	for i := range elems {
 		if i > 0 {
 			g.srcOnly(func() { g.p(",") })
 		}
-		g.src = append(g.src, e.s...)
+		elems[i].off = len(g.src)
+		g.src = append(g.src, elems[i].s...)
 	}
 	first := true
 	for kind := 0; kind < 3; kind++ {
@@ -407,6 +411,9 @@ func (g *G) createTable() {
 			}
 			first = false
 			g.canon = append(g.canon, e.c...)
+			for _, x := range e.cs {
+				g.csrc = append(g.csrc, e.off+x)
+			}
 		}
 	}
 	if n > 0 && g.opt() {
